@@ -8,6 +8,39 @@ from simnet.scen import US
 B_RECOVER = 30 * US     # bounded-progress restatement of "eventually" (DESIGN 4.2)
 MAXFR = 14              # frames estimated to need more than this many fragments are not judged
 DROPS = [0]             # frames the client took from its tun and discarded by its congestion policy
+LAST_MISSING = []       # frames reported lost by the last _seq_check (for diagnosis)
+
+
+def diagnose_down_loss(k, cname, frames):
+    """Why did the client not deliver these downstream frames although the path lost nothing?  Recognises one
+    specific, understood cause: the (single-fragment) packet reached the client in the answer to a query that
+    was no longer among the client's three most recent ones, which the client discards unread."""
+    import struct
+    import zlib
+    want = {}
+    for f in frames:
+        want[bytes(f)] = None
+    sent_ids = []
+    for ev in k.log:
+        if ev[2] != cname:
+            continue
+        d = ev[3].get("data", b"")
+        if ev[1] == "send" and len(d) >= 12 and d[:3] != proto.RAW_MAGIC:
+            sent_ids.append(struct.unpack_from(">H", d, 0)[0])
+        elif ev[1] == "recv" and d[:3] != proto.RAW_MAGIC:
+            try:
+                m = proto.parse_msg(d)
+                p = proto.extract_payload(m)
+                if len(p) <= 2 or not (p[1] & 1) or ((p[1] >> 1) & 15) != 0:
+                    continue
+                fr = zlib.decompress(p[2:])
+            except Exception:
+                continue
+            if fr in want and want[fr] is None:
+                want[fr] = "stale-id" if m.id not in sent_ids[-3:] else "recent-id"
+    if want and all(v == "stale-id" for v in want.values()):
+        return "answer-to-query-older-than-3-most-recent"
+    return None
 
 
 def _seq_check(k, reader, writer, eligible, t_from=None, offer_time=None):
@@ -61,6 +94,7 @@ def _seq_check(k, reader, writer, eligible, t_from=None, offer_time=None):
         return ("duplicate", "frame id %d written %d times" % (dup & 0xFFFFF, wi.count(dup))), len(ri), len(wi)
     missing = [i for i in ri if i not in ws]
     if missing:
+        LAST_MISSING[:] = [f for i, f in reads if i in set(missing)]
         return ("lost", "frame id %d (and %d more) accepted but never delivered" % (missing[0] & 0xFFFFF, len(missing) - 1)), len(ri), len(wi)
     extra = [i for i in wi if i not in rs]
     if extra:
@@ -80,9 +114,24 @@ def scn(params):
         st["offer_time"] = {}
         ident = [1]
 
+        frag0 = t.neg[0]["frag"] if t.neg else 100
+        bits0 = {5: 5, 6: 6, 26: 6, 7: 7}.get(t.neg[0]["enc"] if t.neg else 5, 5)
+        upcap0 = max(1, ((cfg["M"] - len(sim.domain) - 16) * bits0) // 8)
+
         def offer(tt, side):
             fr = tunnelscn.pick_frame(t, rng, side, (params["idx"] << 20) | ident[0], 0,
                                       sizes=[32, 40, 60, 100, 200, 576, 1000, 1134])
+            if mode != "clean" and not (cfg["raw"] and t.neg and t.neg[0]["conn"] == 0):
+                # Packets that cannot fit 16 fragments are outside the property; a stream of them only occupies the
+                # tunnel for seconds each (they are sent and never completed), so the bounded-recovery clause would
+                # measure that backlog instead of the recovery.  One in ten is still offered.
+                too_big = (tunnelscn.est_down_frags(fr, frag0) > MAXFR) if side == "srv" else (tunnelscn.est_up_frags(fr, upcap0) > MAXFR)
+                if too_big and rng.random() < 0.9:
+                    fr = tunnelscn.pick_frame(t, rng, side, (params["idx"] << 20) | ident[0], 0, sizes=[32, 40, 60, 100, 200])
+                    too_big = (tunnelscn.est_down_frags(fr, frag0) > MAXFR) if side == "srv" else (tunnelscn.est_up_frags(fr, upcap0) > MAXFR)
+                    if too_big:
+                        fr = proto.make_frame(fr[16:20] and ".".join(str(x) for x in fr[16:20]), ".".join(str(x) for x in fr[20:24]),
+                                              (params["idx"] << 20) | ident[0], 200, "zeros", rng)
             st["offer_time"][(params["idx"] << 20) | ident[0]] = tt
             k.at(tt, k.offer_tun, "srv" if side == "srv" else t.clients[0].name, fr, ident[0])
             ident[0] += 1
@@ -164,8 +213,14 @@ def scn(params):
                 out["stats"]["clean_%s_accepted" % d] = nr
                 out["stats"]["clean_%s_delivered" % d] = nw
                 if prob:
-                    out["violations"].append(("C02:clean-path:%s:%s" % (d, prob[0]),
-                                              "clean path, %sstream: %s" % (d, prob[1]), wit))
+                    key = "C02:clean-path:%s:%s" % (d, prob[0])
+                    why = ""
+                    if d == "down" and prob[0] == "lost" and not raw:
+                        cause = diagnose_down_loss(k, cname, list(LAST_MISSING))
+                        if cause:
+                            key += ":" + cause
+                            why = " (the packet arrived in the answer to a query that was no longer among the client's 3 most recent and was discarded unread)"
+                    out["violations"].append((key, "clean path, %sstream: %s%s" % (d, prob[1], why), wit))
             nr_d = out["stats"]["clean_down_delivered"]
             nr_u = out["stats"]["clean_up_delivered"]
             if nr_d >= 8 and nr_u >= 8:
